@@ -2,6 +2,7 @@
 # Re-run every seeded change in /verif/seeded against the quick tier of the checks recorded in its
 # meta.json ("detected_by"), on a scratch worktree of /repo HEAD. Never touches /repo.
 # usage: seeded_regression.sh [<seeded-id> ...]      (default: all)
+# A patch that no longer applies to /repo HEAD is checked on the commit recorded in meta.json (applies_to).
 # Prints one line per (change, check): CAUGHT (exit 1 with a VIOLATION line) or MISSED.
 set -u
 WT=/tmp/wt-seeded
@@ -13,8 +14,17 @@ for id in "${ids[@]}"; do
   d=/verif/seeded/$id
   patch=$d/patch.diff
   [ -f $d/patch_rebased_on_repo_head.diff ] && patch=$d/patch_rebased_on_repo_head.diff
+  # meta.json records the newest /repo commit the patch applies to (usually HEAD) and which file to use
+  base=$(python3 -c "import json;m=json.load(open('$d/meta.json')).get('applies_to',{});print(m.get('repo_commit',''),m.get('patch_file',''))")
+  bc=${base%% *}; bf=${base##* }
   git -C $WT checkout -q HEAD -- . ; git -C $WT clean -fdq crates
-  if ! git -C $WT apply $patch 2>/dev/null; then echo "$id: PATCH DOES NOT APPLY to /repo HEAD"; continue; fi
+  git -C $WT checkout -q --detach $(git -C /repo rev-parse HEAD)
+  if ! git -C $WT apply --check $patch 2>/dev/null; then
+    if [ -n "$bc" ] && git -C $WT checkout -q --detach $bc 2>/dev/null && git -C $WT apply --check $d/$bf 2>/dev/null; then
+      patch=$d/$bf; echo "$id: (patch applies to $bc, not to /repo HEAD: checked there)"
+    else echo "$id: PATCH DOES NOT APPLY"; continue; fi
+  fi
+  git -C $WT apply $patch
   checks=$(python3 -c "
 import json,re,sys
 m=json.load(open('$d/meta.json'))
